@@ -29,7 +29,7 @@ H = 1e-6             # own finite-difference step (same as the eps passed to the
 TOL_A = 2e-8
 # (b)/(c) same perturbations, same eps: the engine's routine and the re-implementation differ by round-off
 #     amplified by 1/eps (~1e-9*scale*cond); TOL_B ~100x the worst observed.
-TOL_B = 2e-7
+TOL_B = 2e-8
 TOL_FC = 2e-3        # forward vs centred differences: O(eps * |second derivative|) with eps = 1e-6, generous constant
 COND_MAX = 1e6
 
@@ -483,7 +483,7 @@ TECHNIQUE = ('property-based testing: analytic derivatives vs own central finite
 LEVEL_TEXT = '''Random models x states: qDeriv (with/without RNE term) is compared on D's pattern with central differences of the smooth
 forces; mjd_transitionFD and mjd_inverseFD outputs are reproduced by direct perturbation on copies, forward and centred
 variants must agree to differencing accuracy, and the input state must be bit-identical afterwards. Sampled.'''
-LEVEL_NOTE = '''Trusted: numpy, ctypes reflection, verification build. Tolerances are relative (2e-8 for derivative-vs-FD, 2e-7 for
+LEVEL_NOTE = '''Trusted: numpy, ctypes reflection, verification build. Tolerances are relative (2e-8 for derivative-vs-FD, 2e-8 for
 FD-vs-FD re-implementation), ~100x the worst error seen on the unchanged tree. Not covered: muscle/dcmotor/pid/SO3
 actuator derivative terms, flex derivative paths, sensor Jacobians of mjd_inverseFD, invdiscrete, noslip, constrained
 (active-limit) transition Jacobians.'''
